@@ -6,7 +6,7 @@ from core import World, Line
 from gen import Gen, mode_line
 from suites import gen_history, emit_exec, run_suite, mutate_call
 
-LEAN_MODULES = ['GoSnaps.Props.C20', 'GoSnaps.Props.C20Summary', 'GoSnaps.Props.Tie.SnapshotIO', 'GoSnaps.Props.Tie.CleanIO', 'GoSnaps.Props.Tie.Flows', 'GoSnaps.Props.Tie.CleanTopIO1', 'GoSnaps.Props.Tie.CleanTopIO2', 'GoSnaps.Props.Tie.CleanTopIO3', 'GoSnaps.Props.Tie.CleanTopIO']
+LEAN_MODULES = ['GoSnaps.Props.C20', 'GoSnaps.Props.C20Summary', 'GoSnaps.Props.Tie.SnapshotIO', 'GoSnaps.Props.Tie.CleanIO', 'GoSnaps.Props.Tie.Flows', 'GoSnaps.Props.Tie.CleanTopIO1', 'GoSnaps.Props.Tie.CleanTopIO2', 'GoSnaps.Props.Tie.CleanTopIO3', 'GoSnaps.Props.Tie.CleanTopIO', 'GoSnaps.Props.Tie.Wrappers']
 
 
 def make_spec(g, allow):
